@@ -195,9 +195,20 @@ struct Engine {
         u16 words[2] = {op1, op2};
         VState o1, o2;
         RunResult r1, r2;
+        // before each of the two runs one step is executed under a different addressing configuration, so that whatever the
+        // interpreter may remember from earlier steps does not belong to this configuration when the sequence starts
+        auto scrub = [&]() {
+            VState z = s, zo;
+            z.modi ^= 0x1FF, z.modj ^= 0x1FF, z.stepi ^= 0x7F, z.stepj ^= 0x7F;
+            u16 w[2] = {(u16)(0x0080 | unit | (1 << 3)), 0};
+            RunResult zr;
+            impl.api->run(impl.m, &z, w, 2, 1, &zo, &zr);
+        };
+        scrub();
         impl.api->run(impl.m, &s, words, 2, 1, &o1, &r1);
+        scrub();
         impl.api->run(impl.m, &s, words, 2, 2, &o2, &r2);
-        res.evaluations += 2, res.transitions += 3, res.traces_validated += 2;
+        res.evaluations += 4, res.transitions += 5, res.traces_validated += 4;
         if (r1.outcome != OUT_OK || r2.outcome != OUT_OK)
             return;
         VState mid = s;
@@ -584,8 +595,9 @@ inline void Run(const Args& args, Result& res) {
                                 (unit < 4 ? s.modi : s.modj) = mod;
                                 (unit < 4 ? s.stepi : s.stepj) = s7;
                                 u16 mask = MaskFor(mod);
+                                for (u16 hi : {(u16)0x6400, (u16)(0x65FF & ~mask)}) // buffers at an aligned address and directly below the next alignment boundaries
                                 for (u32 off = 0; off <= mask; ++off) {
-                                    s.r[unit] = (u16)(0x6400 | off);
+                                    s.r[unit] = (u16)(hi | off);
                                     auto modr = [&](int code) { return code < 4 ? (u16)(0x0080 | unit | (code << 3)) : code == 4 ? (u16)(0x4990 | unit) : (u16)(0x5DA0 | unit); };
                                     static const int pairs[][2] = {{3, 1}, {3, 2}, {1, 3}, {2, 3}, {3, 3}, {4, 1}, {5, 2}, {1, 2}, {2, 1}, {3, 4}, {3, 5}};
                                     for (auto& pr : pairs)
